@@ -746,8 +746,11 @@ def run_check(pid, spec, tier, seed, replay=None):
         "wall_s": round(time.time() - t0, 2),
         "violations": 1 if exit_code == 1 else 0,
     }
-    os.makedirs(V + "/evidence", exist_ok=True)
-    with open("%s/evidence/%s.json" % (V, pid), "w") as f:
+    # VERIF_EVIDENCE_DIR: only for runs of the tools (seeded changes applied in a scratch worktree) so that they
+    # do not overwrite the evidence of the registered commands
+    evdir = os.environ.get("VERIF_EVIDENCE_DIR") or (V + "/evidence")
+    os.makedirs(evdir, exist_ok=True)
+    with open("%s/%s.json" % (evdir, pid), "w") as f:
         json.dump(ev, f, indent=1, sort_keys=True, default=str)
     for l in lines:
         print(l)
